@@ -322,7 +322,7 @@ func firstDiff(a, b string) string {
 }
 
 func run(c *core.Ctx) {
-	c.Rule = "for each of the twelve legacy generations (Message type registered through the v1 shim): (a) the file descriptor derived by the runtime (legacyLoadFileDesc) equals, accessor by accessor, protodesc.NewFile of the gunzipped raw descriptor the old generated code embeds, the index path names the same message, and every nested Go type reached through the wrapper maps to the registered descriptor, and every legacy extension descriptor (derived from the struct tag of the old ExtensionDesc) agrees with its declaration in the file descriptor on number, kind, cardinality, packedness, default, message/enum type and extendee; (b) EVERY message of <=k slots (quick k=1 for all generations and k=2 for the oldest proto2 and proto3 generation; thorough k=2 for all) over the thin slot alphabet (all fields incl. legacy extensions, unknown fields, nested messages to depth 1) is built through reflection in the legacy wrapper and in dynamicpb over the derived descriptor: reflection snapshot, deterministic wire bytes, Size, CheckInitialized, protojson (default and EmitUnpopulated/UseProtoNames/UseEnumNumbers) and prototext output must be identical; each decodes the other's bytes to the same content; Clone; the legacy type parses its twin's JSON back to the same content; (c) EVERY sequence of <=k wire records (same k) is decoded by both: same verdict with and without AllowPartial, same observation; (d) maps with 8 entries of every scalar key/value kind placed at the root and below every nested-message path that leads back to the root type (singular child, repeated sibling, map value, group): deterministic bytes identical to dynamicpb. (e) the tag grammar of legacy extensions itself: for every scalar kind x {optional, optional with def=, repeated, repeated packed} a legacy ExtensionDesc (Go type, number, tag string) is constructed on a legacy extendee: the derived descriptor must have the kind, cardinality, packedness and default the tag says, the wire bytes must equal a hand encoding, and the bytes must decode back through a resolver holding the extension. aberrant (struct-tag only) types: see the aberrant clauses in this rule's evidence"
+	c.Rule = "for each of the twelve legacy generations (Message type registered through the v1 shim): (a) the file descriptor derived by the runtime (legacyLoadFileDesc) equals, accessor by accessor, protodesc.NewFile of the gunzipped raw descriptor the old generated code embeds, the index path names the same message, and every nested Go type reached through the wrapper maps to the registered descriptor, and every legacy extension descriptor (derived from the struct tag of the old ExtensionDesc) agrees with its declaration in the file descriptor on number, kind, cardinality, packedness, default, message/enum type and extendee; (b) EVERY message of <=k slots (quick k=1 for all generations and k=2 for the oldest proto2 and proto3 generation; thorough k=2 for all) over the thin slot alphabet (all fields incl. legacy extensions, unknown fields, nested messages to depth 1) is built through reflection in the legacy wrapper and in dynamicpb over the derived descriptor: reflection snapshot, deterministic wire bytes, Size, CheckInitialized, protojson (default and EmitUnpopulated/UseProtoNames/UseEnumNumbers) and prototext output must be identical; each decodes the other's bytes to the same content; Clone; the legacy type parses its twin's JSON back to the same content; (c) EVERY sequence of <=k wire records (same k) is decoded by both: same verdict with and without AllowPartial, same observation; (d) maps with 8 entries of every scalar key/value kind placed at the root and below every nested-message path that leads back to the root type (singular child, repeated sibling, map value, group): deterministic bytes identical to dynamicpb. (e) the tag grammar of legacy extensions itself: for every scalar kind x {optional, optional with def=, repeated, repeated packed} a legacy ExtensionDesc (Go type, number, tag string) is constructed on a legacy extendee: the derived descriptor must have the kind, cardinality, packedness and default the tag says, the wire bytes must equal a hand encoding, and the bytes must decode back through a resolver holding the extension. (f) two hand-written types in the struct shapes of 2016-2018 proto3 code that the fixtures lack (a message that is a oneof only, a message of plain fields only - no XXX_ fields - each with a Descriptor method embedding its raw descriptor): the runtime must use the embedded descriptor (full name, syntax, accessor by accessor) and each field set alone, also with invalid UTF-8, must behave as in dynamicpb. aberrant (struct-tag only) types: see the aberrant clauses in this rule's evidence"
 	c.Exhaustive = true
 	for _, g := range generations {
 		checkDescriptors(c, g)
@@ -359,5 +359,6 @@ func run(c *core.Ctx) {
 	c.Bounds["plans"] = planOut
 	aberrant(c)
 	legacyExtensionTags(c)
+	historicShapes(c)
 	c.Sample(map[string]any{"type": "google.golang.org.proto2_20160225.Message", "case": "optional_child_message.f4.map_int32_bool with 8 entries", "expect": "deterministic bytes equal to dynamicpb (sorted keys)"})
 }
